@@ -527,6 +527,45 @@ class Emit:
         go(x)
         return out
 
+    def mutated_captures(self, clo):
+        """variables a closure changes through assignment or a mutating method call, not bound by the closure itself"""
+        bound = set().union(*[self.pvars(p_) for p_ in clo[1]]) if clo[1] else set()
+        out = set(self.assigns_any(clo[2]))
+        def go(y):
+            if isinstance(y, tuple):
+                if y and y[0] == "mcall" and y[2] in self.cfg.get("mutmethods", {}) and self.lhs_name(y[1]) is not None:
+                    out.add(self.lhs_name(y[1]))
+                if y and y[0] == "let":
+                    bound.update(self.pvars(y[1]))
+                for z in y:
+                    go(z)
+            elif isinstance(y, list):
+                for z in y:
+                    go(z)
+        go(clo[2])
+        return sorted(v for v in out if v not in bound)
+
+    def hoist_map(self, e):
+        """a `.map(<closure that mutates captured variables>)` inside an iterator chain: (receiver, closure, captured, rebuild)"""
+        chain, cur = [], e
+        while cur[0] == "mcall":
+            if cur[2] == "map" and len(cur[3]) == 1 and cur[3][0][0] == "closure" and self.mutated_captures(cur[3][0]):
+                def rebuild(newrecv, chain=list(chain)):
+                    r = newrecv
+                    for name, args in reversed(chain):
+                        r = ("mcall", r, name, args)
+                    return r
+                captured = self.mutated_captures(cur[3][0])
+                for name, args in reversed(chain):
+                    if name in self.cfg.get("consumers", ("into_group_map", "collect", "sum", "count", "fold")):
+                        break
+                    if any(v in self.free(args) for v in captured):
+                        raise Unsupported("a lazy stage reads a variable the stateful map changes")
+                return cur[1], cur[3][0], captured, rebuild
+            chain.append((cur[2], cur[3]))
+            cur = cur[1]
+        return None
+
     def hoist_filter(self, e):
         """a `.filter(<closure that assigns captured variables>)` inside an iterator chain: (receiver, closure, rebuild(new receiver expr))"""
         chain, cur = [], e
@@ -570,6 +609,14 @@ class Emit:
             return self.cps_tail(tail, K, borrows, optb)
         s, rest = stmts[0], stmts[1:]
         cont = lambda b=borrows, o=optb: self.cps(rest, tail, K, b, o)
+        if s[0] == "let" and self.cfg.get("hoist_maps") and self.hoist_map(s[2]) is not None:
+            recv, clo, capt, rebuild = self.hoist_map(s[2])
+            cv = self.tup(capt)
+            cl_body = clo[2] if clo[2][0] == "block" else ("block", [], clo[2])
+            body = self.cps(list(cl_body[1]), cl_body[2], lambda v: "(%s, %s)" % (v, cv), {}, {})
+            pre = ("let (%s, __mapped) := (List.foldl (fun ((%s, __acc) : _ × List _) __it => (match __it with\n    | %s => (let (__val, %s) := (%s);\n    (%s, __acc ++ [__val])))) (%s, []) %s);\n    "
+                   % (cv, cv, self.pat(clo[1][0]), cv, body, cv, cv, self.atom(recv)))
+            return pre + self.cps([("let", s[1], rebuild(("path", ["__mapped"]))) + tuple(s[3:])] + rest, tail, K, borrows, optb)
         if s[0] == "let" and self.hoist_filter(s[2]) is not None:
             recv, clo, capt, rebuild = self.hoist_filter(s[2])
             cv = self.tup(capt)
@@ -1045,6 +1092,21 @@ AUTOWASTE = [
          result="(counter, periodicity_)", sig="(counter periodicity_ : Nat) (periodicity : Nat) : Nat × Nat",
          fieldpath={"obj.periodicity": "periodicity_", "obj.counter": "counter"}, method={"get_auto_waste_obj_mut": "()"}),
 ]
+
+VISVOTE = [
+    dict(group="VisVoting", name="visual_voting_winners", file="trackers/visual_sort/voting.rs", impl=r"impl Voting<VisualObservationAttributes> for VisualVoting \{", fn="winners",
+         cps=True, imperative=True, hoist_maps=True,
+         sig="(bestfitFn : Rat → Nat → List VD → List (Nat × List Voting.Elt)) (sortVotingFn : Rat × Nat × Nat → List VD → List (Nat × List Nat))\n    (positional_threshold max_allowed_feature_distance : Rat) (min_winner_feature_votes : Nat) (distances : List VD) : List (Nat × List (Nat × Bool))",
+         ret="{0}", fieldpath={"self.positional_threshold": "positional_threshold", "self.max_allowed_feature_distance": "max_allowed_feature_distance",
+                               "self.min_winner_feature_votes": "min_winner_feature_votes"},
+         field={"from": "frm", "winner_track": "w", "attribute_metric": "attr"},
+         method={"into_iter": "{0}", "tee": "({0}, {0})", "collect": "{0}", "filter": "List.filter {1} {0}", "map": "List.map {1} {0}", "into": "{0}",
+                 "winners": ["bestfitFn {0}.1 {0}.2 {1}", "sortVotingFn {0} {1}"], "contains_key": "(mapGet {0} {1}).isSome", "contains": "List.contains {0} {1}",
+                 "is_some": "Option.isSome {0}", "len": "List.length {0}"},
+         call={"BestFitVoting::new": "({0}, {1})", "SortVoting::new": "({0}, {1}, {2})", "HashSet::new": "([] : List Nat)"},
+         path={"VotingType::Visual": "true", "VotingType::Positional": "false"},
+         mutmethods={"insert": "setInsert {0} {1}", "extend": "mapExtend {0} {1}"}),
+]
 # decision kernels over Nat / Rat (no field structure needed)
 GAL_METHOD = {"feature": "featureOf {0}", "attr": "{0}", "as_ref": "{0}", "unwrap": "{0}", "visual_quality": "quality {0}",
                  "partial_cmp": "cmpQ {0} {1}", "len": "List.length {0}", "iter": "{0}", "filter": "List.filter {1} {0}", "count": "List.length {0}"}
@@ -1151,7 +1213,7 @@ LOGIC = [
 def gen(repo, cfgs, header, footer):
     out, unread = [header], []
     for c in cfgs:
-        if c in LOGIC or c in TRACK or c in VOTING or c in TRACK_DIST or c in STORE or c in RECORDS or c in AUTOWASTE:
+        if c in LOGIC or c in TRACK or c in VOTING or c in TRACK_DIST or c in STORE or c in RECORDS or c in AUTOWASTE or c in VISVOTE:
             c = dict(c, scalar=c.get("scalar", "Rat"))
         path = os.path.join(repo, "src", c["file"])
         try:
@@ -1295,6 +1357,19 @@ instance : ListOrOptMap List := ⟨List.map⟩
 instance : ListOrOptMap Option := ⟨Option.map⟩
 def listOrOptMap {C : Type → Type} [ListOrOptMap C] {a b : Type} (f : a → b) (x : C a) : C b := ListOrOptMap.mapC f x
 """
+PRELUDE_VISVOTE = """open SimVerif
+/-- `ObservationMetricOk` of a VisualSORT query: candidate, track, positional weight, feature distance -/
+structure VD where
+  frm : Nat
+  to : Nat
+  attr : Option Rat
+  feat : Option Rat
+instance : Inhabited Voting.Elt := ⟨⟨0, 0, 0⟩⟩
+/-- `HashSet::insert` -/
+def setInsert (s : List Nat) (x : Nat) : List Nat := if s.contains x then s else x :: s
+/-- `HashMap::extend` -/
+def mapExtend {β : Type} (m : List (Nat × β)) (l : List (Nat × β)) : List (Nat × β) := l.foldl (fun m p => mapSet m p.1 p.2) m
+"""
 PRELUDE_SWAP = """/-- `slice::swap(i, j)` (indices in range: the code pushes an element first) -/
 def listSwap {α : Type} (l : List α) (i j : Nat) : List α :=
   match l[i]?, l[j]? with
@@ -1351,6 +1426,7 @@ def main():
     jobs.append(("LStoreCmd.lean", STORE, "import SimVerif.Gen.LBase\nimport SimVerif.Model.Track\n" + HEADER_L + "open SimVerif\n", "SimVerif.Gen.L"))
     jobs.append(("LRecord.lean", RECORDS, HEADER_L + PRELUDE_RECORD, "SimVerif.Gen.L"))
     jobs.append(("LAutoWaste.lean", AUTOWASTE, HEADER_L, "SimVerif.Gen.L"))
+    jobs.append(("LVisVoting.lean", VISVOTE, "import SimVerif.Gen.LBase\nimport SimVerif.Model.Voting\n" + HEADER_L + PRELUDE_VISVOTE, "SimVerif.Gen.L"))
     jobs.append(("LTrackDist.lean", TRACK_DIST, "import SimVerif.Gen.LTrack\nimport SimVerif.Model.Track\n" + HEADER_L + PRELUDE_TRACKDIST, "SimVerif.Gen.L"))
     jobs.append(("LConstr.lean", [c for c in LOGIC if c["group"] == "Constr"], HEADER_L + PRELUDE_DEDUP, "SimVerif.Gen.L"))
     jobs.append(("LBase.lean", [], HEADER_L + PRELUDE_BASE + PRELUDE_MAP, "SimVerif.Gen.L"))
